@@ -14,6 +14,27 @@ class Crate:
         self.pre_types = d.get("pre_types") or []
         self.markers = d["markers"]
         self.adts = d["adts"]
+        # attributes as written in the AST (helper attributes such as serde(..) do not survive lowering to HIR)
+        ast = {a["path"]: a for a in (d.get("ast_attrs") or [])}
+        for a in self.adts:
+            x = ast.get(a["path"])
+            a["ast_attrs_joined"] = x is not None
+            if x is None:
+                continue
+            a["attrs"] = list(a.get("attrs", [])) + [s for s in x["attrs"] if s not in a.get("attrs", [])]
+            vs = {v["name"]: v for v in x["variants"]}
+            for v in a["variants"]:
+                xv = vs.get(v["name"])
+                if xv is None and len(x["variants"]) == 1 and len(a["variants"]) == 1:
+                    xv = x["variants"][0]
+                if xv is None:
+                    continue
+                v["attrs"] = list(v.get("attrs", [])) + xv["attrs"]
+                fs = {f["name"]: f for f in xv["fields"]}
+                for f in v["fields"]:
+                    xf = fs.get(f["name"])
+                    if xf is not None:
+                        f["attrs"] = list(f.get("attrs", [])) + xf["attrs"]
         self.impls = d["impls"]
         self.bodies = [Body(b, self, self.types) for b in d["bodies"]]
         self.pre_bodies = [Body(b, self, self.pre_types) for b in d.get("pre_bodies", [])]
